@@ -3,7 +3,8 @@
 Space (exhaustive): for every field that the property names as validated, of RTFPage, RTFBody,
 RTFColumnHeader, RTFFootnote, RTFSource, RTFTitle, RTFSubline, RTFPageHeader, RTFPageFooter and
 RTFFigure: every member of a fixed list of invalid values of the field's kind (unknown keyword,
-wrong-case keyword, 0, -1, -0.5, font 0 / 11 / -1, margin lists of length 0/1/5/7/12) at every
+wrong-case keyword, 0, -1, -0.5, font 0 / 11 / -1, margin lists of length 0/1/5/7/12; thorough: also
+padded / upper-case / near-miss keywords, -0.0, -1e-9, -100, margin lengths 2/3/4/8) at every
 position of every shape {scalar, list of 1..3, 2x2 matrix, 1x3 matrix} (thorough: also 3x1 and 2x3),
 all other positions holding valid values; plus the RTFDocument-level rules (df together with a
 figure, neither, group_by/page_by/subline_by column missing from the data at every list position
@@ -57,6 +58,17 @@ KINDS = {
     "fontsize": {"valid": [9, 12, 8], "invalid": [0, -1, -0.5]},
     "margin": {"valid": [[1.25, 1, 1.75, 1.25, 1.75, 1.0], [1, 1, 2, 1.25, 1.25, 1.25], [0.5, 0.5, 0.5, 0.5, 0.5, 0.5]],
                "invalid": [[], [1.0], [1, 1, 1, 1, 1], [1, 1, 1, 1, 1, 1, 1], [1] * 12]},
+}
+
+# further members of the same kinds, thorough tier only
+EXTRA_INVALID = {
+    "border": [" single", "SINGLE", "none", "single "], "colour": ["RED", "red ", "gray101", "light blue"],
+    "font": [12, 100, -10], "format": ["bB", "bold", "*", "b "], "just": ["C", "centre", "lr", " l"],
+    "valign": ["BOTTOM", "centre", "middle "], "orientation": ["landscape ", "Landscape", "l"],
+    "placement": ["ALL", "every", "first "], "pageby_row": ["first-row", "firstrow", "COLUMN"],
+    "fig_align": ["LEFT", "centre", "l"], "fig_pos": ["AFTER", "below", "after "],
+    "posfloat": [-0.0, -100, -1e-9], "pagedim": [-0.0, -100, -1e-9], "posint": [-2, -100], "fontsize": [-0.0, -100, -1e-9],
+    "margin": [[1, 1], [1, 1, 1], [1, 1, 1, 1], [1] * 8],
 }
 
 SHAPES = {"scalar": None, "list1": (1,), "list2": (2,), "list3": (3,), "m2x2": (2, 2), "m1x3": (1, 3),
@@ -347,7 +359,7 @@ def eval_case(case: dict) -> dict:
 # --------------------------------------------------------------------------- enumeration
 
 
-def field_cases(comp, fields, all_shapes, rots):
+def field_cases(comp, fields, all_shapes, rots, extra=False):
     ctl, bad = [], []
     for field, kind in fields.items():
         nvalid = len(KINDS[kind]["valid"])
@@ -359,7 +371,7 @@ def field_cases(comp, fields, all_shapes, rots):
                 ctl.append({**base, "rot": rot, "ctl": True})
             for rot in rots:
                 for pos in range(npos(shape)):
-                    for b in KINDS[kind]["invalid"]:
+                    for b in KINDS[kind]["invalid"] + (EXTRA_INVALID[kind] if extra else []):
                         bad.append({**base, "rot": rot % nvalid, "pos": pos, "bad": b})
     # distinct (rot % nvalid may collide for short valid lists)
     seen, out = set(), []
@@ -444,7 +456,7 @@ def plan(run):
         groups.append((c, f))
     groups.append(("RTFFigure", {"fig_align": "fig_align", "fig_pos": "fig_pos"}))
     for comp, fields in groups:
-        c, b = field_cases(comp, fields, all_shapes, rots)
+        c, b = field_cases(comp, fields, all_shapes, rots, extra=thorough)
         ctl_all += c
         bad_all += b
     dctl, dbad = doc_cases(thorough)
